@@ -155,6 +155,10 @@ func StartNode(store *raftlog.RaftDiskStorage, nodeId uint64, database string, i
 		Messages:       make(chan *raftpb.Message, config.RaftMsgCacheSize),
 	}
 	n.initIdentity()
+	// Propose ids are matched against the waiters of the running process when an entry is applied.  An entry
+	// proposed by an earlier life of this node may still commit after a restart, so the ids of two lives must
+	// not overlap: start from the node's start time instead of 1.
+	n.proposeId.Store(uint64(n.startTime.UnixNano()))
 	return n
 }
 
